@@ -426,6 +426,6 @@ MANIFEST_ENTRY = {
              "nesting ladders are compiled through compileTeal and Compilation.compile under the interpreter's default recursion limit; the "
              "class of what leaves the entry point is observed: a foreign exception is a violation, and so is the rejection of a recipe that "
              "is typed, definitely assigned and targets a version at or above its documented minimum. Exhaustive over the enumerated "
-             "skeletons, exploration beyond."),
+             "skeletons, exploration beyond. Ill-formed store/load placements must end in PyTeal errors, well-formed ones (no dead code) must compile, Router.compile_program is driven across the 15-argument packing boundary, and blocks ending in a store followed by comments are part of the degenerate shapes."),
     "note": "Known finding: RecursionError for routines of several hundred statements / nesting levels (attributed only to ladder cases at or above a size threshold).",
 }
